@@ -120,6 +120,15 @@ def gen_pattern(rng, rows, cols, style=None):
     elif style == "diagplus":
         pat = [sorted({j for j in range(cols) if rng.random() < 0.25} | ({i} if i < cols and rng.random() < 0.8 else set()))
                for i in range(rows)]
+    elif style == "upper":        # strictly upper triangular: no row has a diagonal entry, some have entries right of it
+        pat = [[j for j in range(i + 1, cols) if rng.random() < 0.6] for i in range(rows)]
+    elif style == "lower":        # strictly lower triangular
+        pat = [[j for j in range(min(i, cols)) if rng.random() < 0.6] for i in range(rows)]
+    elif style == "noself":       # dense without any (i, i)
+        pat = [[j for j in range(cols) if j != i and rng.random() < 0.6] for i in range(rows)]
+    elif style == "somediag":     # upper / lower / both sides, the diagonal entry present in about half of the rows
+        pat = [sorted({j for j in range(cols) if j != i and rng.random() < 0.4} | ({i} if i < cols and rng.random() < 0.5 else set()))
+               for i in range(rows)]
     elif style == "lastcol":
         pat = [[cols - 1] if rng.random() < 0.7 else [] for _ in range(rows)]
     elif style == "firstcol":
@@ -288,7 +297,8 @@ def gen_case(rng, sizes):
             head = "%s %d %d %d " % (fmt, rng.choice([32, 64]), bh, bw)
         n = rows
         A = gen_mat(rng, n, n if rng.random() > 0.03 else n + 1, bh, bw, blocked,
-                    style=rng.choice(["diag", "diagplus", "diagplus", "sparse", "full", "firstcol", "lastcol"]))
+                    style=rng.choice(["diag", "diagplus", "diagplus", "sparse", "full", "firstcol", "lastcol", "upper", "upper",
+                                      "lower", "lower", "noself", "somediag", "somediag"]))
         return head + "diag %s" % A.tok()
     if k < 0.86:
         op = rng.choice(["lump", "rownorm2", "rownorm2sqr", "rownorm2sqr_s", "frob"])
@@ -437,6 +447,22 @@ def corner_cases():
                 X = mk(2, 3, xp, bs, bs, True)
                 out.append("bcsr 32 %d %d dmm_csr %s %s %s %s %s %d" % (
                     bs, bs, X.tok(), mk(2, 2, dp).tok(), mk(2, 2, ap, bs, bs, True).tok(), mk(2, 3, bp).tok(), alpha, allow))
+    # extract_diag: rows with only upper / only lower / both-sided entries without (i, i), empty rows, full diagonal
+    dpats = {
+        "strict-upper": [[1, 2], [2], []],
+        "strict-lower": [[], [0], [0, 1]],
+        "no-self": [[1, 2], [0, 2], [0, 1]],
+        "upper-only-row-then-diag": [[1], [1], [0, 2]],
+        "diag-last-in-row": [[0], [0, 1], [0, 1, 2]],
+        "diag-first-in-row": [[0, 1, 2], [1, 2], [2]],
+        "empty-rows": [[], [1], []],
+        "right-neighbour-only": [[1], [2], [0]],
+    }
+    for name, pat in dpats.items():
+        out.append("csr 64 diag %s" % mk(3, 3, pat).tok())
+        out.append("csr 32 diag %s" % mk(3, 3, pat).tok())
+        for bs in (2, 3):
+            out.append("bcsr 64 %d %d diag %s" % (bs, bs, mk(3, 3, pat, bs, bs, True).tok()))
     return out
 
 
@@ -803,6 +829,53 @@ def canon(out):
     return "ABORT" if out.startswith("ABORT") else out
 
 
+# ---------------------------------------------------------------------------------------------
+# T3: double-precision conformance of norm_frobenius / row_norm2 (supporting evidence, never a proof)
+# ---------------------------------------------------------------------------------------------
+
+U = Fraction(1, 2 ** 53)
+
+
+def gen_fp_case(rng, sizes):
+    rows, cols = rdim(rng, sizes), rdim(rng, sizes)
+    pat = gen_pattern(rng, rows, cols, rng.choice(["sparse", "dense", "full", "diagplus", "emptyrows"]))
+    pat = ensure_entries(rng, pat, cols)
+    spread = rng.choice([0, 0, 10, 40, 200])
+
+    def dy():
+        # dyadic rationals with <= 30 significant bits and a wide magnitude spread: exactly representable
+        return Fraction(rng.randint(-2 ** 30, 2 ** 30)) * Fraction(2) ** rng.randint(-spread, spread)
+    vals = [[dy() for _ in r] for r in pat]
+    return "csrd %d %s %s" % (rng.choice([32, 64]), rng.choice(["frob", "rownorm2"]), Mat(rows, cols, pat, vals).tok())
+
+
+def fp_oracle(case, out):
+    """|r^2 - S| <= gamma_(n+3) S with gamma_k = k u / (1 - k u): n squarings and additions, one square root"""
+    try:
+        t = Tk(case)
+        t.tok(); t.nat()
+        op = t.tok()
+        A = PM(t)
+        if is_abnormal(out):
+            return "%s at double precision ended with %s" % (op, out)
+        o = out.split()
+        if o[0] != "D" or int(o[1]) != len(o) - 2:
+            return "unparsable output"
+        got = [Fraction(float.fromhex(h)) for h in o[2:]]
+        groups = [A.val] if op == "frob" else [A.val[A.rp[i]:A.rp[i + 1]] for i in range(A.rows)]
+        if len(got) != len(groups):
+            return "%d results, expected %d" % (len(got), len(groups))
+        for k, (r, g) in enumerate(zip(got, groups)):
+            S = sum((v * v for v in g), Fraction(0))
+            kk = len(g) + 3
+            gamma = kk * U / (1 - kk * U)
+            if r < 0 or abs(r * r - S) > gamma * S:
+                return "%s[%d] = %s: r^2 deviates from the exact sum of squares %s by more than gamma_%d" % (op, k, float(r), S, kk)
+        return None
+    except (IndexError, ValueError, AssertionError, ZeroDivisionError) as e:
+        return "unparsable (%r): %s" % (e, out[:120])
+
+
 def edge_class(case):
     """known-finding input class of a case (None = clean class)"""
     try:
@@ -946,10 +1019,19 @@ def main(argv):
                   "poorer / disjoint / overlapping per row, allow_incomplete both ways, empty rows of X, D, A, B. "
                   "non-trivial = (products) the structural product has >= 1 entry and X's row pattern differs from "
                   "the product's in >= 1 row; (others) >= 1 stored entry")
-    rc = vlib.run_pipeline(PROP, args.tier, args.seed, lean, [st, est], t0, assumptions=[
+    if args.replay:
+        fcases = []
+    else:
+        frng = random.Random(args.seed * 1000003 + 77)
+        fcases = [gen_fp_case(frng, [1, 2, 3, 5, 8, 13, 40]) for _ in range(1500 if args.tier == "quick" else 15000)]
+    fst = vlib.Stream("fp-norms", fcases, [binary], None, oracle=fp_oracle,
+                      describe=lambda case: ["op:csrd/" + case.split()[2]], signature=lambda c, o, w: "csrd:" + (w or "")[:30],
+                      canon=canon)
+    rc = vlib.run_pipeline(PROP, args.tier, args.seed, lean, [st, est, fst], t0, assumptions=[
         "Index modelled as unbounded Nat (no 32/64-bit overflow at the sizes generated)",
         "CSR/BCSR operands have strictly increasing column indices per row (as every FEAT assembly produces)",
-        "square roots: the deterministic q_sqrt of exact_q.hpp / Proto.qsqrt (float conformance T3 not run)",
+        "square roots: the deterministic q_sqrt of exact_q.hpp / Proto.qsqrt (C03.qsqrt_floor); stream fp-norms runs "
+        "norm_frobenius / row_norm2 at double and checks |r^2 - S| <= gamma_(n+3) S in exact arithmetic (evidence only)",
         "known findings (stream `edge`, judged on every run, FINDINGS_C03.md): c03-edge:F3 entry-free operands"],
         extra_cov={"rule": stats_rule})
     return rc
